@@ -254,5 +254,12 @@ pub fn emergency_exit(prop: &str, sub: &str, case: &Value, failure: Option<&crat
     let _ = std::fs::create_dir_all(&edir);
     let _ = std::fs::write(edir.join(format!("{prop}.json")), serde_json::to_string_pretty(&ev).unwrap() + "\n");
     crate::cli::cleanup(&root);
-    std::process::exit(if failure.is_some() { 1 } else { 2 });
+    // _exit, not process::exit: the run-time's exit clean-up takes a lock that a thread parked inside the
+    // stack-overflow handler still holds (observed as a deadlock)
+    {
+        use std::io::Write;
+        let _ = std::io::stdout().flush();
+        let _ = std::io::stderr().flush();
+    }
+    unsafe { libc::_exit(if failure.is_some() { 1 } else { 2 }) }
 }
